@@ -60,11 +60,11 @@ def step (t : List String) : String :=
       | some r => s!"{r.name} {r.lo} {r.hi} {r.size} {if r.isPad then 1 else 0} {hexOf (r.packDflt r.dflt)}"
       | none => "bad-op"
     | none => "bad-op"
-  | "cvw" :: h :: w :: vals =>
+  | "cvw" :: f4 :: h :: w :: vals =>
     match h.toNat?, w.toNat?, parseAll? parseFloatBits? vals with
     | some h, some w, some vals =>
       if vals.length ≠ h * w then "bad-op" else
-      let (scale, counts) := cvWriteF h w vals
+      let (scale, counts) := cvWriteF h w vals (if f4 == "1" then 1.1920928955078125e-07 else 2.220446049250313e-16)
       let (t1, t2) := cvHeaderDims h w
       s!"{fmtFloat scale} {t1} {t2} {cvLines (h * w)} " ++ fmtList toString counts
     | _, _, _ => "bad-op"
